@@ -89,6 +89,8 @@ def make_data(lay) -> np.ndarray:
 def write_layout(lay, dirpath, prefix="in", **hdr_kw):
     """Write the stream for a layout with the independent codec; returns (paths, D, hdrlens, datalens)."""
     D = make_data(lay)
+    # header variant (full / minimal / reordered with extra optional keys) derived from the data seed
+    hdr_kw.setdefault("variant", lay.get("hdr_variant", lay["data_seed"] % 3))
     paths, hl, dl = sigfile.write_stream(dirpath, D, lay["nbits"], lay["split"], prefix=prefix, **hdr_kw)
     return paths, D, hl, dl
 
